@@ -123,6 +123,16 @@ def cases(draw):
             hist += [["g", "G90"], ["g", "G21"], ["at", "ExcludeRegion", draw(st.sampled_from(["off", "off", "on"]))], first[0]]
             if draw(st.booleans()):
                 hist.append(["event", draw(st.sampled_from(["PRINT_DONE", "PRINT_CANCELLED", "PRINT_FAILED"]))])
+    if regions and draw(st.integers(0, 9)) == 0:
+        # another file was selected (all regions gone) and the same number of regions was drawn again, elsewhere
+        hist.append(["event", "FILE_SELECTED"])
+        for reg in regions:
+            moved = dict(reg)
+            if moved["type"] == "rect":
+                moved.update(x1=reg["x1"] + 21, x2=reg["x2"] + 21, y1=reg["y1"] + 17, y2=reg["y2"] + 17)
+            else:
+                moved.update(cx=reg["cx"] + 21, cy=reg["cy"] + 17)
+            hist.append(["api", "addExcludeRegion", to_api(moved)])
     if draw(st.integers(0, 11)) == 0:
         # the very same file was printed before (to the end, or aborted), followed by a long stretch of other commands
         hist += [["event", "PRINT_STARTED"]] + [it for it in prog if it[0] in ("g", "at")]
